@@ -36,6 +36,12 @@ var (
 )
 
 func report(kind string, in []byte, detail string) {
+	if run == nil {
+		if vlib.FuzzFail != nil {
+			vlib.FuzzFail(kind + ": " + detail)
+		}
+		return
+	}
 	kindMu.Lock()
 	kindSeen[kind]++
 	n := kindSeen[kind]
@@ -212,6 +218,17 @@ func main() {
 				}
 			}
 		})
+		// native fuzzing as an additional input generator (thorough tier): failing inputs are re-run through
+		// the deterministic oracle above, which is what reports them
+		if !r.Quick() {
+			inputs, execs, ok := vlib.GoFuzz("checks/c14", "FuzzBody", 60*time.Second)
+			r.Set("native_fuzzing", map[string]any{"target": "FuzzBody", "ran": ok, "last_progress_line": execs, "failing_inputs": len(inputs)})
+			for _, args := range inputs {
+				if len(args) == 1 {
+					checkBody(args[0])
+				}
+			}
+		}
 		r.Set("bodies_needing_quote", atomic.LoadInt64(&nNeeds))
 		r.Set("bodies_quoted_ok", atomic.LoadInt64(&nQuoted))
 		r.Set("bodies_quote_refused", atomic.LoadInt64(&nRefused))
